@@ -250,6 +250,20 @@ def build_queries(facts):
             qs.append(dict(kind='rejection-gate', where=f"{f['path']}:{pth['line']}", diagnostic=segs[-1], fn=pth['fn'],
                            what=f"rejection `{'::'.join(segs)}` in fn {pth['fn']} is compiled only under some feature subsets of that function",
                            formula=z3.And(fn_site, z3.Not(zcfg(pth['cfg'])), SOME)))
+        # 1c. `let mut x` whose every mutation site is feature-gated: under the subsets that compile none of them rustc warns `unused_mut`
+        muts = {}
+        for mu in f.get('mutations', []):
+            muts.setdefault((mu.get('fn'), nm(mu['name'])), []).append(zcfg(mu['cfg']))
+        for mi in f['macro_idents']:
+            muts.setdefault((mi.get('fn'), nm(mi['name'])), []).append(zcfg(mi['cfg']))
+        for b in f['bindings']:
+            if not b.get('mut') or b.get('allow_unused'):
+                continue
+            sites = muts.get((b.get('fn'), nm(b['name'])))
+            if not sites:
+                continue      # never mutated anywhere the model can see: nothing feature-dependent to decide
+            qs.append(dict(kind='unused-mut', where=f"{f['path']}:{b['line']}", what=f"`let mut {nm(b['name'])}` in fn {b.get('fn')} is mutated only under some feature subsets (unused_mut warning under the others)",
+                           formula=z3.And(eff, zcfg(b['cfg']), z3.Not(z3.Or(sites)), SOME)))
         # 2. cfg'd lets cover their uses
         lets = {}
         for l in f['lets']:
